@@ -601,14 +601,19 @@ func (e *engine) eval() error {
 					}
 				}
 			}
+			// The facts derived in this round become the delta of the next round.
+			// They have to be merged into the store before the next round starts:
+			// a delta rule reads only one premise from the delta and all others
+			// from the store, so a rule that needs two facts first derived in the
+			// same round would otherwise never fire.
+			e.deltaStore = newDeltaStore
+			e.temporalDeltaStore = newTemporalDeltaStore
 			if err := e.mergeDelta(); err != nil {
 				return err
 			}
 			if e.options.totalFactLimit > 0 && e.store.EstimateFactCount() > e.options.totalFactLimit {
 				return fmt.Errorf("fact size limit reached %d > %d", e.store.EstimateFactCount(), e.options.totalFactLimit)
 			}
-			e.deltaStore = newDeltaStore
-			e.temporalDeltaStore = newTemporalDeltaStore
 			if !incrementalFactAdded {
 				break
 			}
